@@ -546,6 +546,9 @@ def feature_tag(lines):
     neg = any(" not " in (" " + l + " ") for l in lines)
     if two_way and neg:
         return "two-way-dynamic-select-multibit-index"
+    # ELSE IF (with a space) whose condition is a bare variable reference
+    if any(l.split()[0] == "ELSP" and len(l.split()) == 3 and l.split()[1] == "s" for l in lines if l.split()):
+        return "else-if-same-condition-port"
     return "-"
 
 
@@ -703,6 +706,7 @@ def main():
                     (["V 1", "I " + " ".join(vec), "E"] if vec else ["V 0", "E"]),
                     input=vec, how_to_replay="python3 checks/C05.py --replay <this file>")
 
+    known_progs = set()
     if hard:
         # concrete failing inputs.  One report per (category, feature) group, shrunk while time allows.
         def primary(cats):
@@ -738,16 +742,23 @@ def main():
             ftag = exception_tag(det) if cat == "postprocess-exception" else feature_tag(lines or progd[pid])
             if (cat, ftag) in groups:
                 groups[(cat, ftag)]["count"] += 1
+                groups[(cat, ftag)]["pids"].add(pid)
                 continue
-            groups[(cat, ftag)] = dict(count=1, pid=pid, k=k, det=det, lines=lines)
+            groups[(cat, ftag)] = dict(count=1, pid=pid, k=k, det=det, lines=lines, pids={pid})
         rep.cov["failing_groups"] = {f"{c} {t}": g["count"] for (c, t), g in groups.items()}
         for (cat, ftag), g in groups.items():
             txt = json.dumps(g["det"])
             if any(kf.split()[:2] == [cat, ftag] for kf in known):
                 rep.known(f"{cat} {ftag}: {g['count']} program(s), e.g. {g['pid']} input {g['k']}: {txt[:300]}")
+                known_progs.update(g["pids"])
             else:
                 o = replay_obj(g["pid"], g["k"], cat, g["det"], g["lines"]); o["feature"] = ftag; o["programs_in_group"] = g["count"]
                 rep.violation(o, tag=cat.replace("-", "_"))
+    # disagreements of the model with itself / the implementation in programs that are known findings
+    # are part of that finding (the model reproduces the deviation); everything else is a broken tie
+    soft = [m for m in soft if m[0] not in known_progs]
+    if rep.violations:
+        pass
     elif soft or proof_broken or errs:
         # tie / proof broken without a directly failing input in the main run: search mode
         budget = 60 if quick else 600
